@@ -110,6 +110,9 @@ def check_c16(rep):
         return any(a == b for a, b in zip(v, v[1:])) and any(a != b for a, b in zip(v, v[1:]))
     compare_lines(rep, "selector", streams, "selector_streams", nontrivial=nontrivial)
     selector_through_store(rep)
+    rule = rep.coverage["rule"]
+    lock_property(rep)
+    rep.coverage["rule"] = rule + " || " + rep.coverage["rule"]
 
 
 def selector_through_store(rep):
@@ -577,7 +580,7 @@ class Gen:
                     if r.random() < k["verdict"]:
                         lines.append("v %d %s %d %s" % (i, h, a, r.choice("DBE")))
             for s in range(1, self.next_sid):
-                lines.append("sel %d %d %d" % (s, a, r.randint(0, 2)))
+                lines.append("sel %d %d %d" % (s, a, r.randint(0, k.get("sel_values", 2))))
         for t, ops in enumerate(progs):
             lines.append("t %d %s" % (t, " ".join(ops)))
         return "\n".join(lines)
@@ -611,6 +614,10 @@ FAMILIES = {
                           mws=(0, 2), directs=(0, 1), verdict=0.2), 20),
     "iterators": (dict(policies=["block"], ops={"d": 10, "it": 3, "gs": 1}, max_ops=4, directs=(0, 1),
                        keep=0.2), 25),
+    "subs_order": (dict(policies=["block"], directs=(3, 4), reducers=(1, 1), keep=0.0,
+                        ops={"d": 10, "un": 6, "as": 2}, max_ops=6, mws=(0, 0), max_threads=3), 10),
+    "selector_unsub": (dict(policies=["block"], directs=(0, 1), selectors=(1, 2), keep=0.1, sel_values=1,
+                            ops={"d": 10, "un": 6, "ss": 1}, max_ops=6, max_threads=3), 10),
     "selectors": (dict(policies=["block"], directs=(0, 1), selectors=(1, 2), keep=0.2,
                        ops={"d": 12, "ss": 1, "un": 1}, max_ops=6), 10),
     "api_mix": (dict(policies=ALLPOL, directs=(0, 1), selectors=(0, 1), chans=(0, 1), chan_pols=ALLPOL,
@@ -626,11 +633,11 @@ FAMILIES = {
 PROPERTY_FAMILIES = {
     "C01": [("mp_dispatch", 160, 2400), ("registration", 60, 800)],
     "C02": [("mp_policies", 200, 3000), ("effects", 60, 800)],
-    "C03": [("mp_dispatch", 160, 2400), ("subs_lifecycle", 60, 800)],
+    "C03": [("mp_dispatch", 120, 2400), ("subs_order", 100, 1600), ("subs_lifecycle", 40, 800)],
     "C04": [("stop_race", 200, 3000), ("channeled", 60, 800)],
     "C05": [("mp_dispatch", 200, 3000)],
     "C06": [("drop_burst", 200, 3000), ("mp_policies", 80, 1000)],
-    "C07": [("registration", 160, 2400), ("mp_dispatch", 60, 800)],
+    "C07": [("registration", 120, 2400), ("subs_order", 120, 1600), ("mp_dispatch", 40, 800)],
     "C08": [("readers", 200, 3000)],
     "C09": [("subs_lifecycle", 220, 3000)],
     "C10": [("channeled", 220, 3000)],
@@ -639,6 +646,27 @@ PROPERTY_FAMILIES = {
     "C14": [("iterators", 160, 2000)],
     "C15": [("droppable", 200, 3000)],
     "C18": [("metrics", 200, 3000)],
+    "C16": [("selector_unsub", 300, 4000), ("selectors", 100, 1500)],
+}
+
+
+# engine F: (family, extra scenario lines, quick count, thorough count)
+PROPERTY_FREE = {
+    "C01": [("mp_dispatch", "", 200, 4000)],
+    "C02": [("mp_policies", "", 200, 4000)],
+    "C03": [("mp_dispatch", "", 200, 4000)],
+    "C04": [("stop_race", "", 200, 4000)],
+    "C05": [("mp_dispatch", "", 200, 4000)],
+    "C06": [("drop_burst", "", 200, 4000)],
+    "C07": [("registration", "", 200, 4000)],
+    "C08": [("readers", "free readers 3\nfree cbread\nfree slowclone 20000", 200, 4000),
+            ("readers", "free readers 2\nfree cbread", 100, 2000)],
+    "C09": [("subs_lifecycle", "", 200, 4000)],
+    "C10": [("channeled", "", 200, 4000)],
+    "C11": [("effects", "", 200, 4000)],
+    "C14": [("iterators", "", 100, 2000)],
+    "C15": [("droppable", "", 200, 4000)],
+    "C18": [("metrics", "", 200, 4000)],
 }
 
 
@@ -674,7 +702,16 @@ def lock_property(rep):
         rep.coverage["programs"] += n
         run_lock(rep, scens, fam, probe_pct=probe, salt=k, monitor=mon)
         rules.append("%s x%d" % (fam, n))
+    for fam, extra, nq, nt in PROPERTY_FREE.get(prop, []):
+        knobs, _ = FAMILIES[fam]
+        n = nt if rep.tier == "thorough" else nq
+        g = Gen(rng_for(rep, fam + "/free"), **knobs)
+        scens = [g.scenario() + ("\n" + extra if extra else "") for _ in range(n)]
+        if mon:
+            run_free(rep, scens, fam + "/free", mon)
+            rules.append("%s (engine F) x%d" % (fam, n))
     rep.coverage["rule"] = (
+        "engine F: the same generators run free on real threads (no scheduler), judged by the monitor; "
         "engine L: random scenarios of the families [%s] (seeded by VERIF_SEED); for each the extracted "
         "Coq model chooses a schedule (random enabled thread, occasional probe of a thread the model "
         "says is blocked), the harness replays it on the real threads behind the verif::point hooks; "
@@ -691,4 +728,160 @@ def lock_property(rep):
 
 
 for _p in PROPERTY_FAMILIES:
-    CHECKS[_p] = lock_property
+    if _p not in CHECKS:
+        CHECKS[_p] = lock_property
+
+
+# --------------------------------------------------------------------------------------------------
+# engine F: free-running real threads judged by the monitors
+# --------------------------------------------------------------------------------------------------
+def run_free(rep, scens, family, monitor):
+    """no model in the loop: the harness runs each scenario on real threads at full speed, the
+    property's monitor judges the global log. Returns the number of rejected histories."""
+    import monitors as _m
+    shards = vlib.chunks(scens, vlib.CORES)
+
+    def one(part):
+        blocks = []
+        todo = list(part)
+        guard = 0
+        while todo and guard < len(part) + 2:
+            guard += 1
+            hrc, hout, herr = vlib.run_tool([vlib.HARNESS, "free"], "\n---\n".join(todo) + "\n---\n", 900)
+            hb = split_blocks(hout)
+            done = 0
+            for b in hb:
+                if b and b[0].startswith("BATCH-ABORTED"):
+                    break
+                blocks.append(b)
+                done += 1
+            if hrc not in (0, 3) or done == 0:
+                return part, blocks, "harness rc=%s after %d blocks: %s" % (hrc, len(blocks), herr[-1500:])
+            todo = todo[done:]
+        return part, blocks, None
+
+    from concurrent.futures import ThreadPoolExecutor
+    with ThreadPoolExecutor(max_workers=len(shards) or 1) as ex:
+        results = list(ex.map(one, shards))
+    rejected = 0
+    for part, blocks, err in results:
+        if err:
+            rep.violation("family %s (engine F) could not run: %s" % (family, err),
+                          "obligation: engine F family %s could not run\n%s\n" % (family, err), no_input=True)
+            rejected += 1
+            continue
+        for sc, h_all in zip(part, blocks):
+            rep.coverage["evaluations"] += 1
+            rep.coverage["free_runs"] = rep.coverage.get("free_runs", 0) + 1
+            if any("SLOWSTOP" in ln for ln in h_all):
+                rep.coverage["inconclusive"] = rep.coverage.get("inconclusive", 0) + 1
+                continue
+            rep.distinct.add((family, hash(tuple(ln for ln in h_all if ln.startswith("L ")))))
+            bad, known = run_monitor(monitor, h_all, sc)
+            for kf in known:
+                rep.known_hits[kf.split(" (")[0]] = rep.known_hits.get(kf.split(" (")[0], 0) + 1
+            if bad:
+                rejected += 1
+                if rejected <= 3:
+                    rep.violation(
+                        "family %s (engine F): the observed execution violates %s: %s" %
+                        (family, rep.prop, "; ".join("%s: %s" % b for b in bad[:3])),
+                        "family: %s\nmode: free\nclauses: %s\n--- scenario\n%s\n--- impl\n%s\n" %
+                        (family, bad[:5], sc, "\n".join(h_all)))
+    rep.coverage["disagreements_checked"] += rejected
+    return rejected
+
+
+# --------------------------------------------------------------------------------------------------
+# C19: two stores in one process (engine F on pairs) + each store alone through engine L
+# --------------------------------------------------------------------------------------------------
+def run_free2(rep, pairs, family, monitor):
+    shards = vlib.chunks(pairs, vlib.CORES)
+
+    def one(part):
+        blocks = []
+        todo = list(part)
+        guard = 0
+        while todo and guard < len(part) + 2:
+            guard += 1
+            text = "".join(a + "\n===\n" + b + "\n---\n" for a, b in todo)
+            hrc, hout, herr = vlib.run_tool([vlib.HARNESS, "free2"], text, 900)
+            hb = split_blocks(hout)
+            done = 0
+            k = 0
+            while k + 1 < len(hb) + 1:
+                if k < len(hb) and hb[k] and hb[k][0].startswith("BATCH-ABORTED"):
+                    break
+                if k + 1 >= len(hb):
+                    break
+                blocks.append((hb[k], hb[k + 1]))
+                done += 1
+                k += 2
+            if hrc not in (0, 3) or done == 0:
+                return part, blocks, "harness rc=%s after %d pairs: %s" % (hrc, len(blocks), herr[-1500:])
+            todo = todo[done:]
+        return part, blocks, None
+
+    from concurrent.futures import ThreadPoolExecutor
+    with ThreadPoolExecutor(max_workers=len(shards) or 1) as ex:
+        results = list(ex.map(one, shards))
+    rejected = 0
+    for part, blocks, err in results:
+        if err:
+            rep.violation("family %s (engine F, pairs) could not run: %s" % (family, err),
+                          "obligation: engine F family %s could not run\n%s\n" % (family, err), no_input=True)
+            rejected += 1
+            continue
+        for (sa, sb), (ha, hb) in zip(part, blocks):
+            rep.coverage["evaluations"] += 1
+            rep.coverage["free_runs"] = rep.coverage.get("free_runs", 0) + 1
+            if any("SLOWSTOP" in ln for ln in ha + hb):
+                rep.coverage["inconclusive"] = rep.coverage.get("inconclusive", 0) + 1
+                continue
+            rep.distinct.add((family, hash(tuple(ln for ln in ha + hb if ln.startswith("L ")))))
+            for which, sc, h in (("A", sa, ha), ("B", sb, hb)):
+                bad, _ = run_monitor(monitor, h, sc)
+                if bad:
+                    rejected += 1
+                    if rejected <= 3:
+                        rep.violation(
+                            "family %s (engine F): store %s of a pair violates %s: %s" %
+                            (family, which, rep.prop, "; ".join("%s: %s" % b for b in bad[:3])),
+                            "family: %s\nmode: free2\nclauses: %s\n--- scenario A\n%s\n--- scenario B\n%s\n"
+                            "--- impl A\n%s\n--- impl B\n%s\n" % (family, bad[:5], sa, sb, "\n".join(ha), "\n".join(hb)))
+    rep.coverage["disagreements_checked"] += rejected
+    return rejected
+
+
+@check("C19")
+def check_c19(rep):
+    import monitors
+    n = 4000 if rep.tier == "thorough" else 240
+    rng = rng_for(rep, "pairs")
+    ga = Gen(rng, policies=["block"], caps=[1, 2, 16], directs=(0, 2), reducers=(1, 2), keep=0.1,
+             ops={"d": 12, "gs": 1}, max_ops=6, mws=(0, 1), max_threads=3)
+    gb = Gen(rng, policies=ALLPOL, caps=[1, 2], directs=(0, 2), reducers=(1, 2), keep=0.1,
+             ops={"d": 10, "gs": 1, "gm": 1}, max_ops=5, mws=(0, 1), max_threads=2)
+    pairs = []
+    for i in range(n):
+        a, b = ga.scenario(), gb.scenario()
+        if i % 2 == 0:
+            a += "\nforward 90"
+            # B must be BlockOnFull (a forwarded dispatch may block, never fail) and slow
+            b = "\n".join(ln for ln in b.split("\n") if not ln.startswith("pol ")) + "\npol block\ndelay reduce 0 0 %d" % rng.choice([200, 1000, 3000])
+        if i % 3 == 0:
+            # equal names
+            pass
+        pairs.append((a, b))
+    rep.coverage["programs"] = len(pairs)
+    run_free2(rep, pairs, "two_stores", monitors.mon_c19)
+    rule_pairs = ("engine F on pairs: two real stores in one process (same name, same reducer and subscriber "
+                  "types; in every second pair a direct subscriber of store A dispatches into store B from inside "
+                  "on_notify while B is slow and small), %d pairs; each store's history is judged on its own by the "
+                  "per-store monitors (C01 C03 C04 C05 C06 C18) plus: an open store never rejects a dispatch" % n)
+    # each store alone, through the lockstep engine (the projection theorem says that is all there is)
+    mon = monitors.MONITORS.get("C01")
+    g = Gen(rng_for(rep, "solo"), **FAMILIES["mp_policies"][0])
+    scens = [g.scenario() for _ in range(2000 if rep.tier == "thorough" else 100)]
+    run_lock(rep, scens, "mp_policies", probe_pct=25, monitor=None)
+    rep.coverage["rule"] = rule_pairs + "; engine L: mp_policies x%d (one store of the pair alone)" % len(scens)
